@@ -519,6 +519,16 @@ impl<'a> Iterator for Iter8<'a> {
     }
 }
 
+#[cfg(any(kani, feature = "verif_hooks"))]
+pub mod verif_hooks {
+    pub fn cut_bits(x: u8, start: usize, end: usize) -> (u8, usize) {
+        super::cut_bits(x, start, end)
+    }
+    pub fn bit_mask(len: usize) -> u8 {
+        super::bit_mask(len)
+    }
+}
+
 #[cfg(test)]
 mod tests {
 
